@@ -647,6 +647,9 @@ def p_array(itp, name, args, kw, node, st):
     r.ex = None if r.shape != () else r.ex
     if isinstance(v, Num) and v.seg is not None:
         r.seg = list(v.seg)
+    if isinstance(v, Num) and name.split('.')[-1] in ('asarray', 'asanyarray') and arg(args, kw, 1, 'dtype') is not None or \
+            (isinstance(v, Num) and name.split('.')[-1] in ('asarray', 'asanyarray')):
+        r.view_of = v.view_of            # asarray returns its argument when no conversion is needed
     return r
 
 
@@ -681,6 +684,7 @@ def p_transpose(itp, name, args, kw, node, st):
     if n.seg is not None and n.shape is not None and len(n.shape) in (1, 2):
         r.seg = list(n.seg)
         r.segax = len(n.shape) - 1 - n.segax
+    r.view_of = n.view_of
     return r
 
 
@@ -859,7 +863,7 @@ def p_multiply(itp, name, args, kw, node, st):
 
 
 @prim('numpy.dot', 'numpy.vdot', 'numpy.inner', 'numpy.convolve', 'scipy.signal.correlate', 'numpy.correlate',
-      'numpy.outer')
+      'numpy.outer', 'scipy.signal.fftconvolve', 'scipy.signal.convolve')
 def p_bilinear(itp, name, args, kw, node, st):
     a, b = N(args[0]), N(args[1])
     if a is None or b is None:
@@ -889,7 +893,7 @@ def p_bilinear(itp, name, args, kw, node, st):
             r.shape = None
         if base == 'vdot':
             r.shape = ()
-    elif base in ('convolve', 'correlate'):
+    elif base in ('convolve', 'correlate', 'fftconvolve'):
         if sa and sb and len(sa) == 1 and len(sb) == 1 and sa[0] is not None and sb[0] is not None:
             r.shape = (sa[0] + sb[0] - 1,)
             mode = kw.get('mode', args[2] if len(args) > 2 else Const('full' if base == 'convolve' or name.startswith('scipy') else 'valid'))
